@@ -7,6 +7,8 @@ from vlib.common import finish, tier, seed, Violation
 from pyvc import propcheck
 
 PROP = 'C20'
+from contracts import c20_short_uuid as _c20   # noqa: the spec's alphabet (observed, not the module's private table)
+_SPEC_A, _SPEC_IDX = _c20.A, _c20.IDX
 
 
 def classify(oid, attempt):
@@ -31,7 +33,7 @@ def validation_runs():
         n += 1
         u = uuid.UUID(int=x)
         s = su.uuid_to_short_str(u)
-        if len(s) != 22 or any(c not in su._INDEX_ALPHABET for c in s):
+        if len(s) != 22 or any(c not in _SPEC_IDX for c in s):
             bad.append(('encode_shape', x, s))
         try:
             if su.uuid_from_short_str(s) != u or su.uuid_from_str(s) != u or su.uuid_from_str(str(u)) != u:
@@ -41,7 +43,7 @@ def validation_runs():
         if s in seen and seen[s] != x:
             bad.append(('collision', x, seen[s]))
         seen[s] = x
-    alphabet = su._ALPHABET
+    alphabet = list(_SPEC_A)
     malformed = ['', 'a', '2' * 21, '2' * 23, '0' * 22, 'l' * 22, 'I' * 22, 'O2' * 11, ' ' * 22, '2' * 21 + '\n',
                  'zzzzzzzzzzzzzzzzzzzzzz', 'é' * 22, '2' * 21 + '1']
     # valid forms with surrounding white space are "any other string": rejected by both entry points
@@ -53,8 +55,8 @@ def validation_runs():
         malformed.append(''.join(rnd.choice(alphabet + ['0', '1', 'l', 'I', 'O', '-', '_']) for _ in range(k)))
     for s in malformed:
         n += 1
-        ok = len(s) == 22 and all(c in su._INDEX_ALPHABET for c in s)
-        val = sum(su._INDEX_ALPHABET[c] * 57 ** i for i, c in enumerate(s)) if ok else None
+        ok = len(s) == 22 and all(c in _SPEC_IDX for c in s)
+        val = sum(_SPEC_IDX[c] * 57 ** i for i, c in enumerate(s)) if ok else None
         for fn in (su.uuid_from_short_str, su.uuid_from_str):
             if fn is su.uuid_from_str and not ok:
                 try:
